@@ -619,7 +619,7 @@ def MimeLike (m : PStr) : Prop :=
 /-- the key `; charset=` is accepted by the live pattern, whatever follows (as long as the value does not begin with
     white space, which the tolerant pattern counts to the key) -/
 theorem key_accepted (old : PStr) (h : old.dropWhile isReSpace = old) : matchKey (ofS " charset=" ++ old) = some old := by
-  simp [matchKey, ofS, List.dropWhile, isReSpace, reWhitespace, charsetReSpaceTolerant, charsetReLiteral, matchClasses, h]
+  simp [matchKey, ofS, List.dropWhile, isReSpace, charsetReSpace, charsetReSpaceTolerant, charsetReLiteral, matchClasses, h]
 
 theorem matchClasses_head_none (cls : List Nat) (more : List (List Nat)) (c : Nat) (t : PStr)
     (h : cls.contains c = false) : matchClasses (cls :: more) (c :: t) = none := by
